@@ -13,7 +13,7 @@ import ast
 import re as _re
 
 from .model import PKG, AnalysisError, Program, is_property, norm
-from .values import (ArgsView, Bound, ClsRef, Const, Dct, EnumV, ExcV, Ext, Func, Lam, Lst, NodeV, Obj, Part, Seq, Str,
+from .values import (ArgsView, Bound, ClsRef, Const, Dct, EnumV, ExcV, Ext, Func, Gen, Lam, Lst, NodeV, Obj, Part, Seq, Str,
                      Sym, Tpl, Tup, Val, mkstr, tagof)
 
 
@@ -126,6 +126,11 @@ class Hooks:
         return NotImplemented
 
 
+# library functions whose result type is fixed by their documentation (isinstance() on the result does not fork)
+_EXT_RETURNS = {"re.sub": "str", "re.escape": "str", "json.dumps": "str", "textwrap.dedent": "str", "os.path.join": "str",
+                "os.getcwd": "str", "builtins.repr": "str", "builtins.chr": "str", "builtins.hex": "str"}
+
+
 class Interp:
     MAX_DEPTH = 12
 
@@ -144,11 +149,20 @@ class Interp:
         self.value_ctx = False
         self.steps = 0
         self.envstack: list[Env] = []  # environments of the active intra-package calls (innermost last)
+        self._tentative: list[bool] | None = None
+        self._tent_tags: list[str] = []
 
     # ------------------------------------------------------------------ decisions
     def decide(self, tag: str) -> bool:
         if tag in self.val:
             return self.val[tag]
+        if self._tentative is not None:
+            # inside an assumed `assert`: unknowns take the values that make the assertion hold, without forking
+            i = len(self._tent_tags)
+            v = self._tentative[i] if i < len(self._tentative) else True
+            self._tent_tags.append(tag)
+            self.val[tag] = v
+            return v
         if self.dpos < len(self.decisions):
             v = self.decisions[self.dpos]
         else:
@@ -329,7 +343,7 @@ class Interp:
         out = []
         for x in elts:
             if isinstance(x, ast.Starred):
-                v = self.ev(x.value, env)
+                v = self.force(self.ev(x.value, env))
                 if isinstance(v, (Tup, Lst)):
                     out.extend(v.items)
                 else:
@@ -389,8 +403,30 @@ class Interp:
         env.vars[e.target.id] = v
         return v
 
+    def _capture_defaults(self, a: ast.arguments, env) -> dict:
+        captured = {}
+        pos = [*a.posonlyargs, *a.args]
+        for prm, d in zip(pos[len(pos) - len(a.defaults):], a.defaults):
+            captured[prm.arg] = self.ev(d, env)
+        for prm, d in zip(a.kwonlyargs, a.kw_defaults):
+            if d is not None:
+                captured[prm.arg] = self.ev(d, env)
+        return captured
+
+    @staticmethod
+    def _with_captured(f, node_args: ast.arguments, args, kwargs) -> dict:
+        cap = getattr(f, "defaults", None) or {}
+        if not cap:
+            return kwargs
+        pos = [x.arg for x in (*node_args.posonlyargs, *node_args.args)]
+        given = set(pos[:len(args)]) | set(kwargs)
+        return {**{k: v for k, v in cap.items() if k not in given}, **kwargs}
+
     def ev_Lambda(self, e, env):
-        return Lam(e, env, env.mod)
+        lam = Lam(e, env, env.mod)
+        # default values are evaluated when the lambda is created (`lambda m, v=value: v` captures this iteration's value)
+        lam.defaults = self._capture_defaults(e.args, env)
+        return lam
 
     def ev_UnaryOp(self, e, env):
         v = self.ev(e.operand, env)
@@ -648,7 +684,7 @@ class Interp:
         if len(e.generators) != 1:
             return Sym(f"comp@{self.siteid(e)}")
         g = e.generators[0]
-        it = self.ev(g.iter, env)
+        it = self.force(self.ev(g.iter, env))
         sub = Env(env.mod, env.fn, env)
         src = self.iter_values(it, e)
         if src is not None:
@@ -909,11 +945,50 @@ class Interp:
                 kwargs[k.arg] = self.ev(k.value, env)
         return self.call(f, args, kwargs, e, env)
 
+    def _assumed_test(self, test, env):
+        """Evaluate the test of an `assert` that is taken as an assumption: unknowns first met inside it do not fork the path;
+        they take the first assignment under which the test holds (the assertion fails only if none does)."""
+        val0, n_eff = dict(self.val), len(self.effects)
+        preset: list[bool] = []
+        v = None
+        for _ in range(16):
+            self.val = dict(val0)
+            del self.effects[n_eff:]
+            self._tentative, self._tent_tags = preset, []
+            try:
+                v = self.ev(test, env)
+            finally:
+                k = len(self._tent_tags)
+                self._tentative, self._tent_tags = None, []
+            if not (isinstance(v, Const) and not v.v):
+                return v
+            # next assignment of the k unknowns met (binary counting, True first)
+            cur = (preset + [True] * k)[:k]
+            while cur and cur[-1] is False:
+                cur.pop()
+            if not cur:
+                return v
+            cur[-1] = False
+            preset = cur
+        return v
+
+    def force(self, v):
+        """run a pending generator expression (once): whoever receives or iterates it consumes it"""
+        if isinstance(v, Gen):
+            if v.result is None:
+                v.result = self.comprehension(v.node, v.env, "gen")
+            return v.result
+        return v
+
     def call(self, f, args, kwargs, site, env=None) -> Val:
+        if any(isinstance(a, Gen) for a in args) or any(isinstance(a, Gen) for a in kwargs.values()):
+            args = [self.force(a) for a in args]
+            kwargs = {k: self.force(a) for k, a in kwargs.items()}
         if isinstance(f, Func):
             return self.call_func(f, args, kwargs, site)
         if isinstance(f, Lam):
             sub = Env(f.mod, "lambda", f.env)
+            kwargs = self._with_captured(f, f.node.args, args, kwargs)
             self.bind(f.node.args, args, kwargs, sub, None)
             return self.ev(f.node.body, sub)
         if isinstance(f, ClsRef):
@@ -992,6 +1067,8 @@ class Interp:
             self.effect("call", key, args, kwargs, site)
             return Sym(f"{key}()@{self.siteid(site)}", origin=("call", key, args, kwargs))
         env = Env(f.mod, f.qual, f.closure)
+        if getattr(f, "defaults", None) and f.self_val is None:
+            kwargs = self._with_captured(f, node.args, args, kwargs)
         self.bind(node.args, args, kwargs, env, f.self_val)
         self.depth += 1
         self.callstack.append(key)
@@ -1155,6 +1232,22 @@ class Interp:
             if isinstance(a0, Const) and not isinstance(a0.v, str):
                 a0 = Const(str(a0.v))  # sqlglot stores literal text
             return self.construct(ClsRef("exp.Literal"), [], {"this": a0, "is_string": Const(d.endswith("string"))}, site)
+        if d == "sqlglot.exp.to_identifier":
+            return self._to_identifier(a0, kwargs.get("quoted", args[1] if len(args) > 1 else None))
+        if d == "sqlglot.exp.table_" and args:
+            # table_(table, db=None, catalog=None, quoted=None, alias=None): Table(this, db, catalog[, alias=TableAlias])
+            pos = dict(zip(("table", "db", "catalog", "quoted", "alias"), args))
+            pos.update(kwargs)
+            q = pos.get("quoted")
+            slots = {"this": self._to_identifier(pos["table"], q)}
+            for k in ("db", "catalog"):
+                v = self._to_identifier(pos.get(k), q)
+                if not (isinstance(v, Const) and v.v is None):
+                    slots[k] = v
+            al = pos.get("alias")
+            if al is not None and self.truth(al):
+                slots["alias"] = self.construct(ClsRef("exp.TableAlias"), [], {"this": self._to_identifier(al, None)}, site)
+            return self.construct(ClsRef("exp.Table"), [], slots, site)
         if d in ("typing.cast", "builtins.cast"):
             return args[1]
         if b == "isinstance":
@@ -1284,7 +1377,22 @@ class Interp:
         if d == "os.environ.get":
             return Sym(f"env:{tagof(a0)}", origin=("environ", a0), typ="str")
         self.effect("call", d, args, kwargs, site)
-        return Sym(f"{d}()@{self.siteid(site)}", origin=("call", d, args, kwargs))
+        return Sym(f"{d}()@{self.siteid(site)}", origin=("call", d, args, kwargs), typ=_EXT_RETURNS.get(d))
+
+    def _to_identifier(self, v, quoted) -> Val:
+        """sqlglot.exp.to_identifier: None stays None, an Identifier is passed through, text becomes an Identifier that is quoted
+        when asked for or when the text is not a safe bare name."""
+        if v is None or (isinstance(v, Const) and (v.v is None or v.v == "")):
+            return Const(None)
+        if isinstance(v, NodeV):
+            return v
+        if isinstance(quoted, Const) and quoted.v:
+            q = Const(True)
+        elif isinstance(v, Const) and isinstance(v.v, str):
+            q = Const(not _re.match(r"^[_a-zA-Z][\w]*$", v.v))
+        else:
+            q = Sym(f"unsafe_name({tagof(v)})", typ="bool")
+        return NodeV("Identifier", {"this": v, "quoted": q}, name=f"id:{tagof(v)}", open=False)
 
     def parse_one(self, d, args, kwargs, site) -> Val:
         src = args[0] if args else Const("")
@@ -1592,6 +1700,12 @@ class Interp:
     def node_method(self, n: NodeV, name, args, kwargs, site, env) -> Val:
         a0 = args[0] if args else None
         if name == "sql":
+            if n.cls == "Column" and not n.open and not any(k in n.args for k in ("table", "db", "catalog")):
+                idn = n.args.get("this")
+                t = idn.args.get("this") if isinstance(idn, NodeV) and idn.cls == "Identifier" else None
+                q = idn.args.get("quoted") if t is not None else None
+                if isinstance(t, Const) and isinstance(t.v, str) and _re.match(r"^[A-Za-z_]\w*$", t.v) and isinstance(q, Const) and not q.v:
+                    return Const(t.v)  # a bare unquoted column name renders as itself in every dialect
             return Sym(f"sql({n.name})", truthy=True, origin=("sql", n, kwargs.get("dialect")), typ="str")
         if name == "copy":
             c = NodeV(n.cls, dict(n.args), name=n.name + "'", open=n.open, notcls=n.notcls)
@@ -1724,7 +1838,7 @@ class Interp:
             return
         if isinstance(s, ast.Assign):
             self.value_ctx = isinstance(s.value, ast.BoolOp)
-            v = self.ev(s.value, env)
+            v = Gen(s.value, env) if isinstance(s.value, ast.GeneratorExp) else self.ev(s.value, env)
             self.value_ctx = False
             for t in s.targets:
                 self.assign(t, v, env, s)
@@ -1784,7 +1898,7 @@ class Interp:
             return
         if isinstance(s, ast.Return):
             self.value_ctx = isinstance(s.value, ast.BoolOp)
-            v = self.ev(s.value, env) if s.value else Const(None)
+            v = (Gen(s.value, env) if isinstance(s.value, ast.GeneratorExp) else self.ev(s.value, env)) if s.value else Const(None)
             self.value_ctx = False
             raise _Return(v)
         if isinstance(s, ast.Raise):
@@ -1799,7 +1913,10 @@ class Interp:
             self.effect("raise", v, s)
             raise _Raise(v)
         if isinstance(s, ast.Assert):
-            v = self.ev(s.test, env)
+            if self.hooks.assert_mode() == "assume" and self._tentative is None:
+                v = self._assumed_test(s.test, env)
+            else:
+                v = self.ev(s.test, env)
             if self.hooks.assert_mode() == "assume":
                 if isinstance(v, Const) and not v.v:
                     ex = ExcV("builtins.AssertionError")
@@ -1814,7 +1931,7 @@ class Interp:
                 raise _Raise(ex)
             return
         if isinstance(s, ast.For):
-            it = self.ev(s.iter, env)
+            it = self.force(self.ev(s.iter, env))
             vals = self.iter_values(it, s)
             if vals is None:
                 # unknown iterable: zero or one abstract iteration
@@ -1863,7 +1980,9 @@ class Interp:
                     self.effect("with-exit", None, it.context_expr)
             return
         if isinstance(s, ast.FunctionDef):
-            env.vars[s.name] = Func(env.mod, f"{env.fn}.<locals>.{s.name}", s, closure=env)
+            fnv = Func(env.mod, f"{env.fn}.<locals>.{s.name}", s, closure=env)
+            fnv.defaults = self._capture_defaults(s.args, env)  # evaluated when the def statement runs
+            env.vars[s.name] = fnv
             return
         if isinstance(s, (ast.Import, ast.ImportFrom, ast.Global, ast.Nonlocal, ast.ClassDef, ast.Delete)):
             return
